@@ -5,6 +5,10 @@ Oracle on the implementation: for generated modules, every location that exists 
   (replace) RewriteAtQuery(q, r).visit(tree) sets `replaced` iff the location exists, the node at the resolved
             tree position is a new object, and every other node is unchanged (the tree dumps equal with that
             position masked)
+  (sync)    the user of both operations, sync_properties, asked to copy one location of a module onto another location of
+            the SAME file (find at the first, replace at the second, template on/off): the file afterwards parses and its
+            tree equals the original with the second location's position masked - replaced once, no other node, the node the
+            value was read from included.  Only calls inside guard_C14 are judged (the classes outside it belong to C14).
 Failures are classified by the executable Coq guard's complement (finding_class_C15 / rw_finding_class_C15,
 asked through the driver); class None means the point is inside the proved region: a violation."""
 import ast
@@ -54,7 +58,9 @@ def gen_points(rng, tier):
         if rng.random() < 0.1:
             src = rng.choice(SPECIAL)
         else:
-            src = GM.gen_module(rng, depth=rng.choice([1, 2, 3, 3]), max_items=rng.choice([4, 6, 8]))
+            # a third of the modules also carry imports (module level and class bodies) that mention pool names
+            src = GM.gen_module(rng, depth=rng.choice([1, 2, 3, 3]), max_items=rng.choice([4, 6, 8]),
+                                shadow_imports=rng.choice([0.0, 0.0, 0.15, 0.3]))
         tree = st.ast_parse(src)
         locs = [p for p, _ in GM.all_locations(tree)]
         qs = [(list(p), "existing") for p in locs]
@@ -139,7 +145,45 @@ def replace_holds(pt):
     return True, ""
 
 
+def gen_sync_points(rng, tier):
+    """one module, an existing leaf location to read and an existing leaf location of the same kind to replace"""
+    import fam_syncprops as SP
+    n = 260 if tier == "quick" else 2500
+    pts = []
+    while len(pts) < n:
+        r = rng.random()
+        if r < 0.3:
+            src = rng.choice(SP.SP_INPUTS + SP.SP_OUTPUTS)
+        else:
+            src = GM.gen_module(rng, depth=rng.choice([1, 2, 2, 3]), max_items=rng.choice([4, 6, 8]))
+        tree = ast.parse(src)
+        args, stmts = SP._leaf_locs(tree, kind="arg"), SP._leaf_locs(tree, kind="stmt")
+        anns = [".".join(p) for p, nd in GM.all_locations(tree) if isinstance(nd, ast.AnnAssign)]
+        for _ in range(3):
+            pools = [(a, b) for a, b in ((args + anns, args), (anns or stmts, stmts)) if a and b]
+            if not pools:
+                break
+            ipool, opool = rng.choice(pools)
+            ip, op = rng.choice(ipool), rng.choice(opool)
+            wrap = rng.choice(SP.WRAPS[:3]) if rng.random() < 0.65 else None
+            pts.append({"src": src, "q": op.split("."), "kind": "existing", "check": "sync", "ip": ip, "op": op,
+                        "wrap": wrap})
+    return pts[:n]
+
+
+def _sync_args(pt):
+    return [False, pt["src"], [pt["ip"]], pt["src"], [pt["op"]], pt["wrap"], True]
+
+
+def sync_holds(pt):
+    import prop_C14      # (prop_C14 imports this module: import at call time)
+    ok, what, _kind = prop_C14.impl_judge({"args": _sync_args(pt)})
+    return ok, what
+
+
 def impl_holds(pt):
+    if pt["check"] == "sync":
+        return sync_holds(pt)
     return find_holds(pt) if pt["check"] == "find" else replace_holds(pt)
 
 
@@ -159,8 +203,15 @@ def oracle(rng, tier):
             plain[src] = astwire.enc_module(st.ast_parse(src))
         return plain[src]
 
+    import fam_syncprops
+    pts = pts + gen_sync_points(rng, tier)
     reqs, reqs2 = [], []
     for p in pts:
+        if p["check"] == "sync":
+            w = fam_syncprops.wire_args(_sync_args(p))
+            reqs.append(dumps([Sym("c14_class")] + w))
+            reqs2.append(dumps([Sym("c14_holds")] + w))
+            continue
         fn = "c15_class" if p["check"] == "find" else "c15_rw_class"
         reqs.append(dumps([Sym(fn), list(p["q"]), wire(p["src"])]))
         reqs2.append(dumps([Sym("c15_holds"), list(p["q"]), wire(p["src"])]))
@@ -172,6 +223,10 @@ def oracle(rng, tier):
         if c == "unsupported":
             hist["skipped-unsupported-module"] += 1
             continue
+        if p["check"] == "sync" and c != "none":
+            # out of C14's domain, or in one of C14's finding classes (they are C14's to report): not judged here
+            hist["sync:outside-guard_C14"] += 1
+            continue
         ce = loads(c)
         cls = None if ce == "none" else unhx(ce[1])
         ok, what = impl_holds(p)
@@ -179,7 +234,7 @@ def oracle(rng, tier):
         hist["%s:%s:%s:%s" % (p["check"], p["kind"], "holds" if ok else "fails", cls or "in-guard")] += 1
         if cls is None and len(p["q"]) >= 1:
             seen.add((p["src"], tuple(p["q"]), p["check"]))
-        if p["check"] == "find" and mh in ("true", "false") and (mh == "true") != ok:
+        if p["check"] in ("find", "sync") and mh in ("true", "false") and (mh == "true") != ok:
             disagree.append({"case": p, "model_holds": mh, "impl_holds": ok, "what": what, "class": cls})
         if not ok:
             failures.append({"case": p, "what": what, "class": cls})
@@ -188,7 +243,9 @@ def oracle(rng, tier):
         "distinct_nontrivial": len(seen),
         "rule": "generated modules (depth <= 3, repeated names, functions before/after classes) x every existing location + "
                 "perturbed/random non-existing ones; find judged by object identity against gen_module.resolve; replace judged "
-                "by position + masked dump; non-trivial = distinct (module, location, check) inside the proved region",
+                "by position + masked dump; sync: sync_properties from one location onto another of the same file (inside "
+                "guard_C14), judged by the masked dump of the file; modules with and without imports that mention pool "
+                "names; non-trivial = distinct (module, location, check) inside the proved region",
         "failures": failures,
         "model_impl_property_disagreements": disagree,
         "histogram": dict(hist),
